@@ -73,7 +73,7 @@ func unmarshalQuestion(cond string) string {
 }
 
 func explorePaths(p *Prog, f *ssa.Function) []labelledPath {
-	in := &interp{p: p, f: f, maxPaths: 20000, maxVisit: 2, structuralNames: true}
+	in := &interp{p: p, f: f, maxPaths: 20000, maxVisit: 2, structuralNames: true, inline: func(g *ssa.Function) bool { return smallHelper(g) || funcName(g) == "(Identifiers).IDs" }}
 	in.callHook = func(st *istate, c *ssa.Call, args []*aval) *aval {
 		cc := c.Common()
 		sc := cc.StaticCallee()
